@@ -47,7 +47,8 @@ def deviations(ctx):
     jobs.append((dict(module="AsmMC", cfg='CONSTANTS\n  N = 5\n  MaxSkip = 2\n  Algo = "legacy"\n  PerBranch = FALSE\nSPECIFICATION Spec\nINVARIANTS Correct\nCHECK_DEADLOCK FALSE\n',
                       name="dev_asm_legacy", expect_violation=True), "Correct"))
     # loader
-    for dev, inv in (('{"R1Ignored"}', "NilImpliesInForce"), ('{"NoThreadLock"}', ("NNPRequestedLoads", "NNPBeforeInstallSameThread")), ('{"SupportedFlags0"}', "SupportedTrue"), ('{"PrctlErrorSwallowed"}', ("NNPBeforeInstallSameThread", "PrctlFailureStopsLoad"))):
+    for dev, inv in (('{"R1Ignored"}', "NilImpliesInForce"), ('{"NoThreadLock"}', ("NNPRequestedLoads", "NNPBeforeInstallSameThread")), ('{"SupportedFlags0"}', "SupportedTrue"), ('{"PrctlErrorSwallowed"}', ("NNPBeforeInstallSameThread", "PrctlFailureStopsLoad")),
+                     ('{"PrctlBeforeAssemble"}', ("NNPRequestedLoads", "NNPBeforeInstallSameThread", "EarlyFailurePure"))):
         jobs.append((dict(module="Loader", cfg=loaderfam.mc_cfg(dev=dev), name="dev_loader_" + dev.strip('{}"'), expect_violation=True), inv))
     # commands
     jobs.append((dict(module="ProfCache", cfg='CONSTANTS\n  NChunks = 4\n  Dev = {"InPlaceCache"}\nSPECIFICATION Spec\nINVARIANTS SecondRunSound ValidMeansComplete\nCHECK_DEADLOCK FALSE\n',
@@ -76,6 +77,7 @@ def deviations(ctx):
         j["expect_violation"] = True
         jobs.append((j, inv))
     jobs.append((dict(module="Sandbox", cfg=(scfg % '{"SkipWhenUnsupported"}').replace('"badyaml"}', '"badyaml", "seccompdenied"}'), name="dev_sandbox_skip", expect_violation=True), "ExecOnlyUnderFilter"))
+    jobs.append((dict(module="Sandbox", cfg=(scfg % '{"ExecveAppended"}').replace("ExecOnlyUnderFilter", "PolicyAsWritten ExecOnlyUnderFilter"), name="dev_sandbox_execve", expect_violation=True), "PolicyAsWritten"))
     jobs.append((dict(module="Sandbox", cfg=(scfg % '{"ZeroMeansUnset"}').replace("ExecOnlyUnderFilter", "PolicyAsWritten ExecOnlyUnderFilter"), name="dev_sandbox_zero", expect_violation=True), "PolicyAsWritten"))
     jobs.append((dict(module="TableGenMC", cfg='CONSTANTS\n  Dev = {"X64Filter"}\n  OutFile = "unused"\nSPECIFICATION Spec\nINVARIANTS BuildersIdealInv GeneratedUnambiguousInv\nCHECK_DEADLOCK FALSE\n',
                       name="dev_tablegen_x64", expect_violation=True, workers=1), ("BuildersIdealInv", "GeneratedUnambiguousInv")))
